@@ -124,6 +124,43 @@ func init() {
 			},
 		}
 	})
+	// a broker that takes its time with PUBCOMP: for two generations PUBRELs
+	// stay unanswered, so that each restart finds PUBREL records of different
+	// ages next to fresh PUBLISH records
+	register("qos2hold", func() *Scenario {
+		cfg := baseConfig()
+		cfg.ExactlyOnceMax = 4
+		rd := ActorSpec{Name: "reader", Reader: &ReaderSpec{Backoff: true}}
+		var w0 *World
+		return &Scenario{
+			Config: cfg,
+			Init:   func(w *World) { w0 = w },
+			Actors: []ActorSpec{rd, {Name: "A", Ops: []Op{
+				{Kind: "pub2", Topic: "h/1", Msg: []byte("H1-aaaa")},
+				{Kind: "pub2", Topic: "h/2", Msg: []byte("H2-bbbb")},
+				{Kind: "pub2", Topic: "h/3", Msg: []byte("H3-cccc")},
+			}}},
+			Gens: [][]ActorSpec{{rd}, {rd, {Name: "A", Ops: []Op{{Kind: "pub2", Topic: "h/4", Msg: []byte("H4-dddd")}}}}},
+			Mute: func(p *Packet) bool {
+				if w0 == nil || w0.gen >= 2 {
+					return false
+				}
+				// no PUBCOMP before the last generation; in the first one the third PUBLISH gets no PUBREC either
+				return p.Type == tPUBREL || w0.gen == 0 && p.Type == tPUBLISH && p.Topic == "h/3"
+			},
+			Faults:  Faults{Crash: true},
+			Horizon: 1500,
+			Final: func(w *World) {
+				w.monitorWire()
+				w.monitorRestart()
+				if w.gen == 2 {
+					w.monitorQoS2Out()
+					w.monitorAllDelivered("C03")
+					w.monitorAllDelivered("C02")
+				}
+			},
+		}
+	})
 	register("qos2out", func() *Scenario {
 		cfg := baseConfig()
 		cfg.ExactlyOnceMax = 2
